@@ -112,6 +112,27 @@ let run_K caseno tk =
   let tgt = read_mtype tk in
   Printf.printf "K %d %s\n" caseno (pr_transcript ["ab"; "abn"; "ext"] (k_dbgconv sv tgt))
 
+(* family S: prog <src mapping tokens> nlevels (R (slice tokens)*R)*nlevels *)
+let read_slice tk =
+  let k = next_int tk in
+  match k with
+  | 0 -> let _u = next_int tk in let v = next_z tk in SIdx (Dyn v)
+  | 1 -> let v = next_z tk in SIdx (Const v)
+  | 2 | 3 -> let b = next_z tk in let e = next_z tk in SRange (Dyn b, Dyn e)
+  | 4 -> let b = next_z tk in let e = next_z tk in SRange (Const b, Const e)
+  | 5 -> SFull
+  | _ -> let mask = next_int tk in let o = next_z tk in let x = next_z tk in let s = next_z tk in
+         let mk bit v = if mask land bit <> 0 then Const v else Dyn v in
+         SStrided (mk 1 o, mk 2 x, mk 4 s)
+let run_S caseno tk =
+  let _prog = next_int tk in
+  let (sv, _) = read_mval tk in
+  let nl = next_int tk in
+  let levels = take_n tk nl (fun tk -> let r = next_int tk in take_n tk r read_slice) in
+  let labels = "sp0" :: List.concat (List.init nl (fun l -> let s = string_of_int (l + 1) in
+     List.map (fun x -> x ^ s) ["rk"; "ly"; "se"; "e"; "st"; "of"; "sp"; "h"; "ad"; "sa"])) in
+  Printf.printf "S %d %s\n" caseno (pr_transcript labels (s_chain sv levels))
+
 (* family X: prog kind ... *)
 let run_X caseno tk =
   let _prog = next_int tk in
@@ -150,6 +171,7 @@ let () =
           | "X" -> run_X !caseno tk
           | "V" -> run_V !caseno tk
           | "K" -> run_K !caseno tk
+          | "S" -> run_S !caseno tk
           | f -> Printf.printf "%s %d unknown-family\n" f !caseno);
          incr caseno
        end
